@@ -61,17 +61,7 @@ func (c *Calcium) doCreateWorkloads(ctx context.Context, opts *types.DeployOptio
 	)
 
 	_ = c.pool.Invoke(func() {
-		defer func() {
-			cctx, cancel := context.WithTimeout(utils.NewInheritCtx(ctx), c.config.GlobalTimeout)
-			for nodename := range deployMap {
-				processing := opts.GetProcessing(nodename)
-				if err := c.store.DeleteProcessing(cctx, processing); err != nil {
-					logger.Errorf(ctx, err, "delete processing failed for %s", nodename)
-				}
-			}
-			close(ch)
-			cancel()
-		}()
+		defer close(ch)
 
 		var resourceCommit wal.Commit
 		defer func() {
@@ -89,6 +79,19 @@ func (c *Calcium) doCreateWorkloads(ctx context.Context, opts *types.DeployOptio
 					if err := commit(); err != nil {
 						logger.Errorf(ctx, err, "commit wal failed: %s, %s", eventProcessingCreated, nodename)
 					}
+				}
+			}
+		}()
+
+		// runs before the WAL commits above: once a create-processing entry is committed
+		// nothing would delete its processing if the core crashed in between
+		defer func() {
+			cctx, cancel := context.WithTimeout(utils.NewInheritCtx(ctx), c.config.GlobalTimeout)
+			defer cancel()
+			for nodename := range deployMap {
+				processing := opts.GetProcessing(nodename)
+				if err := c.store.DeleteProcessing(cctx, processing); err != nil {
+					logger.Errorf(ctx, err, "delete processing failed for %s", nodename)
 				}
 			}
 		}()
